@@ -179,26 +179,27 @@ def lean_namespace_of(path):
 
 
 def obligations(prop, tier, log):
-    """Build the property's theorem module against the regenerated definitions."""
-    mod = 'Clemens.Props.' + prop
-    path = os.path.join(LEAN, 'Clemens', 'Props', prop + '.lean')
-    res = {'module': mod, 'theorems': [], 'ok': True, 'failed': [], 'axioms': {}, 'bad_axioms': [], 'forbidden': []}
-    if not os.path.exists(path):
+    """Build the property's theorem modules (Props/<prop>*.lean) against the regenerated definitions."""
+    paths = sorted(glob.glob(os.path.join(LEAN, 'Clemens', 'Props', prop + '*.lean')))
+    mods = ['Clemens.Props.' + os.path.basename(p)[:-5] for p in paths]
+    res = {'modules': mods, 'theorems': [], 'ok': True, 'failed': [], 'axioms': {}, 'bad_axioms': [], 'forbidden': []}
+    if not paths:
         res['missing'] = True
         return res
-    names = theorems_in(path)
-    ns = lean_namespace_of(path)
-    res['theorems'] = [(ns + '.' + n) if ns else n for n in names]
+    for path in paths:
+        ns = lean_namespace_of(path)
+        res['theorems'] += [(ns + '.' + n) if ns else n for n in theorems_in(path)]
     with Lock(os.path.join(WORK, '.lake.lock')):
-        rc, out = sh(['lake', 'build', mod], cwd=LEAN, timeout=6000)
-    log.append(('lake build ' + mod, rc, out[-4000:]))
+        rc, out = sh(['lake', 'build'] + mods, cwd=LEAN, timeout=6000)
+    log.append(('lake build ' + ' '.join(mods), rc, out[-4000:]))
     if rc != 0:
         res['ok'] = False
         res['output'] = out[-4000:]
-        failed = set(re.findall(r'error: [^\n]*?(?:theorem|declaration)?\s*\'?([A-Za-z0-9_.]+)\'?', out))
-        res['failed'] = sorted(n for n in res['theorems'] if n.split('.')[-1] in out or n in failed) or ['<build of ' + mod + '>']
+        # attribute the failure: theorem names mentioned in error lines, or whole modules that failed
+        failed = [n for n in res['theorems'] if re.search(r'\b' + re.escape(n.split('.')[-1]) + r'\b', out)]
+        res['failed'] = sorted(set(failed)) or ['<build of ' + ' '.join(mods) + '>']
         return res
-    # forbidden constructs in the proof sources of this property's closure
+    # forbidden constructs anywhere in the Lean sources
     srcs = glob.glob(os.path.join(LEAN, 'Clemens', '**', '*.lean'), recursive=True)
     bad = []
     for s in srcs:
@@ -214,13 +215,13 @@ def obligations(prop, tier, log):
     if tier == 'thorough' and res['theorems']:
         tmp = os.path.join(WORK, 'axioms_%s.lean' % prop)
         with open(tmp, 'w') as f:
-            f.write('import %s\n' % mod)
+            for m in mods:
+                f.write('import %s\n' % m)
             for n in res['theorems']:
                 f.write('#print axioms %s\n' % n)
         with Lock(os.path.join(WORK, '.lake.lock')):
             rc, out = sh(['lake', 'env', 'lean', tmp], cwd=LEAN, timeout=3000)
         log.append(('#print axioms', rc, out[-4000:]))
-        cur = None
         for m in re.finditer(r"'([^']+)' (depends on axioms: \[([^\]]*)\]|does not depend on any axioms)", out.replace('\n', ' ')):
             ax = [a.strip() for a in (m.group(3) or '').split(',') if a.strip()]
             res['axioms'][m.group(1)] = ax
@@ -230,13 +231,14 @@ def obligations(prop, tier, log):
         if rc != 0 or res['bad_axioms'] or len(res['axioms']) != len(res['theorems']):
             res['ok'] = False
             res['output'] = out[-3000:]
-        with Lock(os.path.join(WORK, '.lake.lock')):
-            rc, out = sh(['lake', 'env', 'leanchecker', mod], cwd=LEAN, timeout=3000)
-        log.append(('leanchecker ' + mod, rc, out[-2000:]))
-        res['leanchecker_rc'] = rc
-        if rc != 0:
-            res['ok'] = False
-            res['output'] = out[-3000:]
+        for m in mods:
+            with Lock(os.path.join(WORK, '.lake.lock')):
+                rc, out = sh(['lake', 'env', 'leanchecker', m], cwd=LEAN, timeout=3000)
+            log.append(('leanchecker ' + m, rc, out[-2000:]))
+            res['leanchecker_rc'] = rc
+            if rc != 0:
+                res['ok'] = False
+                res['output'] = out[-3000:]
     return res
 
 
